@@ -81,9 +81,58 @@ def open_part(res):
                        "how_to_replay": "./check C16 --replay <this file>"})
 
 
+def locks_part(res):
+    """a daemon stopped (not dead) while it holds whatever locks it may ever take on the segment file:
+    another process holds an exclusive flock and an exclusive POSIX record lock on a valid segment;
+    clients must still attach and read - nothing a client does may wait for the daemon"""
+    import os, subprocess, sys, shutil
+    from props import _files as F
+    root = os.path.join(c.BUILD, "scratch", "locks-%d" % os.getpid())
+    shutil.rmtree(root, ignore_errors=True)
+    os.makedirs(root)
+    NS = 10 ** 9
+    rec = (100, 5, 1100, 0, 12345, 50000, 1)
+    lines, paths = [], []
+    for k in range(2):
+        p = os.path.join(root, "shm%d" % k)
+        with open(p, "wb") as f:
+            f.write(F.header(gen=2 + 2 * k) + F.record(rec))
+        paths.append(p)
+        lines.append("seg %s 1700000000 0 %d %d" % (p, 101 + k, 7))
+    helper = subprocess.Popen([sys.executable, "-c",
+                               "import fcntl,sys,time\nfs=[open(p,'r+b') for p in sys.argv[1:]]\n"
+                               "for f in fs:\n fcntl.flock(f, fcntl.LOCK_EX)\n fcntl.lockf(f, fcntl.LOCK_EX)\n"
+                               "print('locked', flush=True)\ntime.sleep(120)"] + paths, stdout=subprocess.PIPE, text=True)
+    bad = []
+    try:
+        if helper.stdout.readline().strip() != "locked":
+            raise c.CheckError("the lock holder could not lock the scratch segment")
+        rust = c.run_lines_hang_aware(c.build_harness("debug")[0], [lines[0]], "O:hang:0: K:hang:0: N:-", chunk_timeout=8)
+        cout = c.run_lines_hang_aware(F.build_c_driver(), [lines[1]], "K:hang:0: N:-", args=(), chunk_timeout=8)
+    finally:
+        helper.kill()
+        helper.wait()
+    for what, out in (("ShmReader::new / ClockBoundClient::new_with_path", rust[0]), ("clockbound_open", cout[0])):
+        res.evaluations += 1
+        res.count("open-under-locks:" + ("hang" if "hang" in out else "returned"))
+        res.nontriv(what)
+        if "hang" in out:
+            bad.append({"case": {"file": "a valid segment on which another process holds flock(LOCK_EX) and an exclusive record lock"},
+                        "why": ["%s did not return within 5 s while another process held the locks: a stopped daemon would hang its clients" % what]})
+        elif ":ok" not in out.split()[0] and "K:ok" not in out:
+            bad.append({"case": {"file": "locked valid segment"}, "why": ["%s failed on a valid segment while another process held locks on it: %s" % (what, out)]})
+    shutil.rmtree(root, ignore_errors=True)
+    res.oblige("clients attach to a segment on which another process holds an exclusive flock and record lock", not bad)
+    if bad:
+        res.violation({"property": "C18", "kind": "input", "case": bad[0], "others": [],
+                       "predicate": "every client call, including attaching to the segment, returns after a bounded amount of work",
+                       "how_to_replay": "./check C18"})
+
+
 def run(res, proofs_ok, proofs_why):
     _shm.run_property("C18", res, proofs_ok, proofs_why, extra_part=stall_part)
     open_part(res)
+    locks_part(res)
 
 
 def replay(res, path):
